@@ -218,10 +218,10 @@ def generate_pdf(document, target, zoom, **options):
 
         # Arbitrarly set PDF BleedBox between CSS bleed box (MediaBox) and
         # CSS page box (TrimBox) at most 10 points from the TrimBox.
-        bleed_left = trim_left - min(10, bleed['left'])
-        bleed_top = trim_top - min(10, bleed['top'])
-        bleed_right = trim_right + min(10, bleed['right'])
-        bleed_bottom = trim_bottom + min(10, bleed['bottom'])
+        bleed_left = trim_left - min(10 * zoom, bleed['left'])
+        bleed_top = trim_top - min(10 * zoom, bleed['top'])
+        bleed_right = trim_right + min(10 * zoom, bleed['right'])
+        bleed_bottom = trim_bottom + min(10 * zoom, bleed['bottom'])
 
         pdf_page['TrimBox'] = pydyf.Array([
             trim_left, trim_top, trim_right, trim_bottom])
